@@ -96,6 +96,7 @@ class Machine:
         self.trace = []
         self.steps = 0
         self.counts = {}
+        self.globals = {}        # optional: name -> address for `$name` operands (else Unsupported)
 
     def alloc(self, size, align):
         self.next -= size + align
@@ -123,7 +124,17 @@ class Machine:
                 raise Trap("undefined temporary " + t)
             return env[t]
         if t[0] == "$":
+            if t[1:] in self.globals:
+                return self.globals[t[1:]] & M64
             raise Unsupported("global " + t)
+        if t.startswith("s_") or t.startswith("d_"):
+            import struct
+            try:
+                x = float(t[2:])
+            except ValueError:
+                raise Unsupported("operand " + t)
+            return struct.unpack("<I", struct.pack("<f", x))[0] if t[0] == "s" else \
+                struct.unpack("<Q", struct.pack("<d", x))[0]
         if t[0].isdigit() or t[0] == "-":
             return int(t) & M64
         raise Unsupported("operand " + t)
@@ -192,8 +203,8 @@ class Machine:
         raise Unsupported("extern " + name)
 
     def exec(self, env, ln, t):
-        if t[0] in ("storew", "storel", "storeh", "storeb"):
-            n = {"w": 4, "l": 8, "h": 2, "b": 1}[t[0][5]]
+        if t[0] in ("storew", "storel", "storeh", "storeb", "stores", "stored"):
+            n = {"w": 4, "l": 8, "h": 2, "b": 1, "s": 4, "d": 8}[t[0][5]]
             self.store(self.val(env, t[2]), n, self.val(env, t[1]))
             return
         if t[0] == "call":
